@@ -249,7 +249,15 @@ impl Monitor for C14 {
                 json!({"kind": "mutate", "text": words.join(" ")})
             }
             7 => json!({"kind": "prefix", "text": valid_statement(rng)}),
-            8 => json!({"kind": "valid", "text": valid_statement(rng)}),
+            8 => if rng.chance(1, 2) { json!({"kind": "valid", "text": valid_statement(rng)}) } else {
+                // aggregate calls where an operand stands - inside CASE branches, IN lists, function arguments, array literals,
+                // WHERE, GROUP BY keys, nested in another aggregate: valid or an error, never a crash of the lowering
+                let mut words = split_words(&valid_statement(rng));
+                let spots: Vec<usize> = words.iter().enumerate().filter(|(_, w)| matches!(w.as_str(), "k" | "g" | "i" | "r" | "b" | "s" | "ts" | "iv" | "ia" | "sa" | "NULL" | "TRUE") || w.chars().all(|c| c.is_ascii_digit()) && !w.is_empty()).map(|(i, _)| i).collect();
+                let n = if spots.is_empty() { 0 } else { 1 + rng.below(2) };
+                for _ in 0..n { let at = *rng.pick(&spots); words[at] = rng.pick(&["MAX ( i )", "COUNT ( * )", "SUM ( g )", "MIN ( k )", "COUNT ( DISTINCT i )", "PERCENTILE ( r , 0.5 )", "STRING_AGG ( k , ',' )", "AVG ( MAX ( i ) )", "ARRAY_AGG ( s )", "BOOL_AND ( b )", "( MAX ( i ) , 1 )", "COUNT ( )", "MAX ( )", "STDDEV ( r , r )"]).to_string(); }
+                json!({"kind": "misplaced-aggregate", "text": words.join(" ")})
+            },
             9 | 10 => json!({"kind": "bad", "text": bad_definition(rng)}),
             _ => json!({"kind": "nest", "text": nest_case(rng)}),
         }
